@@ -24,6 +24,8 @@ program_chains and the evidence's coverage.bounds):
   traceback) triples are rendered: the tail tb.tb_next (what an inner handler recorded before the exception
   propagated further; oracle: the traceback module given the same triple) and a value stripped of its __traceback__.
   Link 'genfile' (GENERATED_LINKS): code compiled from a string under the path of a real file, run in a bare namespace.
+  Links 'reraise', 'reraise_stored' (RERAISE_LINKS): the function catches the exception and raises the same object again,
+  so one frame object stands behind two traceback entries with different line numbers.
 * part `programs-tails` - the same programs whose raising function is itself recursive *on the raising line*
   (TAILS), so that the traceback ends inside a run of identical entries (with and without a
   "[Previous line repeated ...]" summary as its last stack line); directed deep runs (DEEP_TAILS).
@@ -117,6 +119,13 @@ META_SOURCES = (
     'print("%s: %d%%" % (a, b))', 'x = "%(name)s" % d', 'pct = 100 % n', 'return "%"',
     's = re.sub(r"(\\w+)\\s*$", r"\\1\\g<0>", s)', 'p = "C:\\new\\table"', 'os.environ["$HOME"] = "${x} $1"')
 META_PATHS = ('/a/{x}/{0}{}.py', '/a/%s/100%/%(n)s.py', 'C:\\1\\g<0>\\$x\\${y}.py')
+# Terminal control text inside the free-text positions (command-line tools put colour sequences into their error messages;
+# a source line may hold the escape character literally): ANSI SGR / erase / cursor sequences, an OSC title sequence,
+# a lone ESC, other C0 controls and DEL.  (None of them is a line boundary or, placed inside the text, stripped white space.)
+CONTROL_MESSAGES = ('status: \x1b[31mFAILED\x1b[0m', '\x1b[0m', 'a\x1b[1;31m\nb\x1b[m: c', '\x1b[2K\x1b[1A\x1b]0;t\x07x',
+                    'a\x1bb', 'a\x07\x08\x00\x7fb\tc')
+CONTROL_SOURCES = ('print("\x1b[1;31merror\x1b[0m")', 'RESET = "\x1b[m\x1b[2K\x1b"; bell = "\x07\x08\x00\x7f"')
+META_SOURCES += CONTROL_SOURCES
 META_MESSAGES = ('{}', '{0} {x} {{y}} }{', '%s %(a)s 100% %d', '\\1 \\g<0> \\', '$x ${y} $$', 'k: {"a": 1}\n{\n}')
 
 # Texts in which the interpreter summarises recursion: an entry printed three times followed by
@@ -162,6 +171,7 @@ SPLITLINES_BOUNDARY_MESSAGES = True
 BOUNDARY_MESSAGES = ('a\rb', 'a\x0bb', 'a\x0cb', 'a\x1cb', 'a\x1eb', 'a\x85b', 'a\u2028b', 'a\u2029\nb')
 if SPLITLINES_BOUNDARY_MESSAGES:
     EXTRA_MESSAGES += BOUNDARY_MESSAGES
+EXTRA_MESSAGES += CONTROL_MESSAGES
 XEXC_MENU = tuple(itertools.product(EXC_TYPES, EXTRA_MESSAGES))
 MEXC_MENU = tuple(itertools.product(EXC_TYPES, META_MESSAGES))
 
@@ -505,6 +515,12 @@ VIRTUAL_LINKS = ('loader', 'specloader', 'speconly')
 # but the file stands behind it when the file is missing.
 GENERATED_LINKS = ('genfile',)
 OFFMODULE_LINKS = VIRTUAL_LINKS + GENERATED_LINKS
+# Links that catch the exception and raise the *same object* again with "raise exc" - inside the handler ('reraise') or
+# after it, from a variable ('reraise_stored').  The interpreter then lists the function twice: the line of the raise
+# statement, then the line of the original call (one frame object, two traceback entries with their own line numbers).
+# No __context__ / __cause__ arises (plain_exception() verifies).  ('finally' and the heads' bare "raise" give one entry.)
+RERAISE_LINKS = ('reraise', 'reraise_stored')
+SHORT_LINKS = OFFMODULE_LINKS + RERAISE_LINKS       # links crossed with everything in the shorter chains only
 DEEP_LINKS = ('plain', 'lambda', 'exec', 'rec3')
 EXC_KINDS = ('msg', 'empty', 'keyerror', 'multiline', 'custom', 'nested', 'assert', 'badstr')
 RAISE = {
@@ -521,7 +537,10 @@ RAISE = {
 # filename, several args, BaseException subclasses, a class that claims module __main__, a class defined in a function
 # ('<locals>' in its qualified name), non-ASCII text, __str__ returning '' / a non-string.
 EXTRA_EXC_KINDS = ('oserror', 'tupleargs', 'keyboardinterrupt', 'systemexit', 'main_class', 'local_class', 'nonascii',
-                   'str_empty', 'str_nonstr', 'metachars')
+                   'str_empty', 'str_nonstr', 'metachars',
+                   # messages that end in line terminators (captured output of a subprocess, ...), begin with one, end in
+                   # white space, carry terminal colour sequences: the interpreter prints every character of them
+                   'trailing_newline', 'newline_only', 'trailing_newlines', 'leading_newline', 'trailing_space', 'ansi')
 # Exception classes whose __module__ is None, or a module called "exceptions" / "__builtin__" (the Python 2 names of
 # builtins): on the tree as of this writing ExceptionInfo prints "None.X: m" (interpreter: "<unknown>.X: m") and
 # "X: m" (interpreter: "exceptions.X: m") - defect candidate, fixes/C16-9-type-module-prefix.patch.  Set to True once
@@ -540,6 +559,12 @@ RAISE.update({
     # the raising source line and the message carry format / template / regex-replacement metacharacters
     'metachars': "raise ValueError('{} {0} {{x}} }{ %s %(a)s 100% \\\\1 \\\\g<0> ${y}')",
     'str_nonstr': "raise StrInt('x')",
+    'trailing_newline': "raise ValueError('x\\n')",
+    'newline_only': "raise ValueError('\\n')",
+    'trailing_newlines': "raise Custom('a: b\\nc\\n\\n')",
+    'leading_newline': "raise ValueError('\\nx')",
+    'trailing_space': "raise ValueError('x \\t')",
+    'ansi': "raise ValueError('status: \\x1b[31mFAILED\\x1b[0m')",
     'module_none': "raise NoModule('m')",
     'module_exceptions': "raise LegacyModule('m')",
     'module_py2_builtin': "raise LegacyBuiltin('m')",
@@ -551,13 +576,18 @@ TYPE_SHAPE = {'msg': 'builtin', 'empty': 'builtin', 'keyerror': 'builtin', 'mult
 MSG_SHAPE.update({'oserror': 'one_line', 'tupleargs': 'one_line', 'keyboardinterrupt': 'empty_message',
                   'systemexit': 'one_line', 'main_class': 'one_line', 'local_class': 'one_line', 'nonascii': 'one_line',
                   'str_empty': 'empty_message', 'str_nonstr': 'str_raises', 'module_none': 'one_line', 'metachars': 'one_line',
-                  'module_exceptions': 'one_line', 'module_py2_builtin': 'one_line'})
+                  'module_exceptions': 'one_line', 'module_py2_builtin': 'one_line',
+                  'trailing_newline': 'ends_in_newline', 'newline_only': 'ends_in_newline',
+                  'trailing_newlines': 'ends_in_newline', 'leading_newline': 'multi_line', 'trailing_space': 'one_line',
+                  'ansi': 'one_line'})
 TYPE_SHAPE.update({'oserror': 'builtin', 'tupleargs': 'builtin', 'keyboardinterrupt': 'builtin', 'systemexit': 'builtin',
                    'main_class': 'main_class', 'local_class': 'local_class', 'nonascii': 'builtin',
                    'metachars': 'builtin',
                    'str_empty': 'module_class', 'str_nonstr': 'module_class', 'module_none': 'module_none',
                    'module_exceptions': 'module_named_like_py2_builtins',
-                   'module_py2_builtin': 'module_named_like_py2_builtins'})
+                   'module_py2_builtin': 'module_named_like_py2_builtins',
+                   'trailing_newline': 'builtin', 'newline_only': 'builtin', 'trailing_newlines': 'module_class',
+                   'leading_newline': 'builtin', 'trailing_space': 'builtin', 'ansi': 'builtin'})
 # Shape of the raising function.  'plain': "def fN(): raise ...".  'self<k>': fN calls itself k times *on the line that
 # finally raises*, so the traceback ends with k+1 identical (file, line, function) entries: 3 (the most the interpreter
 # prints in full), 4 ("1 more time"), 6 ("3 more times").
@@ -664,6 +694,12 @@ def program_source(chain, exc, tail='plain', head='plain'):
             src.append('def %s():\n    return (\n        %s()\n    )\n' % (me, nxt))
         elif kind == 'finally':
             src.append('def %s():\n    try:\n        return %s()\n    finally:\n        _sink[0] += 1\n' % (me, nxt))
+        elif kind == 'reraise':
+            src.append('def %s():\n    try:\n        return %s()\n    except BaseException as exc:\n        raise exc\n'
+                       % (me, nxt))
+        elif kind == 'reraise_stored':
+            src.append('def %s():\n    saved = None\n    try:\n        return %s()\n    except BaseException as exc:\n'
+                       '        saved = exc\n    raise saved\n' % (me, nxt))
         elif kind == 'bounce':
             # one source line, alternating function names (f<i> / <lambda>): the interpreter must NOT collapse these
             src.append('def %s(n=3):\n    return (lambda: %s(n - 1))() if n else %s()\n' % (me, me, nxt))
@@ -1391,8 +1427,8 @@ def program_chains(tier):
     maxlen = 3 if tier == 'quick' else 4
     vlen = maxlen - 1                       # chains containing a virtual link: one link shorter
     for n in range(maxlen + 1):
-        for c in itertools.product(LINKS + OFFMODULE_LINKS, repeat=n):
-            if n <= vlen or not (set(c) & set(OFFMODULE_LINKS)):
+        for c in itertools.product(LINKS + SHORT_LINKS, repeat=n):
+            if n <= vlen or not (set(c) & set(SHORT_LINKS)):
                 yield c
     deep = (4,) if tier == 'quick' else (5, 6)
     for n in deep:
@@ -1511,6 +1547,8 @@ def run(ctx):
                   'lookalike_source_lines': LOOKALIKE_SOURCES,
                   'metacharacter_source_lines': META_SOURCES, 'metacharacter_paths': META_PATHS,
                   'metacharacter_messages': META_MESSAGES,
+                  'control_sequence_messages (among extra_messages)': CONTROL_MESSAGES,
+                  'control_sequence_source_lines (among metacharacter_source_lines)': CONTROL_SOURCES,
                   'metacharacter_frames': 'texts with at least one frame that has a metacharacter source line or path, '
                                           'below every message of the menu and every metacharacter message (these also '
                                           'as UTF-8 bytes): 1 frame with every path/line/function/source line (%d); 2 '
@@ -1533,9 +1571,10 @@ def run(ctx):
                               '; lookalike source lines: 1 frame with every surrounding, %s frames over lookalike '
                               'frames + reduced menu' % ('2' if quick else '2-3')},
         'programs': {'links': LINKS, 'virtual_links': VIRTUAL_LINKS, 'generated_file_links': GENERATED_LINKS,
+                     'reraise_links': RERAISE_LINKS,
                      'chain_length': ('0-3 over all links, 4 over %s' % (DEEP_LINKS,) if quick
                                       else '0-4 over all links, 5-6 over %s' % (DEEP_LINKS,)) +
-                                     '; chains containing a virtual or generated-file link: 0-%d' % (2 if quick else 3),
+                                     '; chains containing a virtual, generated-file or re-raising link: 0-%d' % (2 if quick else 3),
                      'linecache': 'entries that linecache can rebuild itself are dropped between asking the traceback '
                                   'module and asking tbutils (TracebackInfo on a cold cache, later classes warm)',
                      'exception_kinds': {k: RAISE[k] for k in EXC_KINDS},
